@@ -32,8 +32,20 @@ see the original path /a (index 1).  Modelled as it is; both `serve` and `eval` 
 -/
 theorem subroute_error_routes_see_rewritten_uri :
     serve wRewriteRoutes true wRewriteErrs wReq =
-      ⟨[⟨1, 1, none⟩, ⟨2, 3, none⟩, ⟨3, 3, some 500⟩, ⟨4, 1, some 404⟩], some 404⟩ ∧
+      ⟨[⟨1, 1, none, none⟩, ⟨2, 3, none, none⟩, ⟨3, 3, some 500, some 500⟩, ⟨4, 1, some 404, some 404⟩], some 404⟩ ∧
     eval wRewriteRoutes true wRewriteErrs wReq = serve wRewriteRoutes true wRewriteErrs wReq := by decide
+
+/-
+`WithError` sets `{http.error.status_code}` only for a `HandlerError`.  After a first error with
+status 404, a second error that is NOT a `HandlerError` (the server answers those with 500) leaves
+the placeholder at 404: handler 3 sees context error `some 0` next to placeholder 404, and an
+error route answering with "{http.error.status_code}" sends 404.  Modelled as it is.
+-/
+theorem status_placeholder_stale_after_plain_error :
+    serve wStaleRoutes true wStaleErrs wReq =
+      ⟨[⟨1, 1, none, none⟩, ⟨2, 1, some 404, some 404⟩, ⟨3, 1, some 0, some 404⟩], some 404⟩ ∧
+    serve wStaleRoutes true [.mk 0 [] [.pass 3] false] wReq =
+      ⟨[⟨1, 1, none, none⟩, ⟨2, 1, some 404, some 404⟩, ⟨3, 1, some 0, some 404⟩], some 500⟩ := by decide
 
 /-
 A matcher set is a JSON object; caddy builds it by ranging over a Go map, so the order of the
